@@ -75,7 +75,7 @@ def check(prop, tier, replay_file=None):
             base, i = h["seed"] // 1000, h["seed"] % 1000
             for attempt in range(2):
                 out = sc.path("rerun-%s-%d-%d.ndjson" % (h["store"], h["seed"], attempt))
-                r = subprocess.run([bins["storerun"], "-store", h["store"], "-n", str(i + 1), "-seed", str(base), "-ops", str(ops), "-bound", "10000", "-out", out],
+                r = subprocess.run([bins["storerun"], "-store", h["store"], "-n", str(i + 1), "-from", str(i), "-seed", str(base), "-ops", str(ops), "-bound", "10000", "-out", out],
                                    stdout=subprocess.PIPE, stderr=subprocess.PIPE, text=True, timeout=3600)
                 if r.returncode != 0:
                     return True
@@ -86,8 +86,14 @@ def check(prop, tier, replay_file=None):
             return False
         dropped = 0
         kept = []
+        confirmed = set()   # stores on which a dead subscription has been reproduced once: no need to ask again
         for h, c in viols:
-            if c == "C15_WatcherSeesLatest" and dead_subscription(h) and not reproduces(h):
+            if c == "C15_WatcherSeesLatest" and dead_subscription(h) and h["store"] not in confirmed:
+                if reproduces(h):
+                    confirmed.add(h["store"])
+                    kept.append((h, c))
+                    continue
+            if c == "C15_WatcherSeesLatest" and dead_subscription(h) and h["store"] not in confirmed:
                 dropped += 1
                 log("C15: a subscription that delivered nothing (store %s, seed %d) did not reproduce in two re-runs: not a verdict" % (h["store"], h["seed"]))
                 continue
